@@ -493,7 +493,43 @@ func runPatch(line string) (obs string) {
 		fmt.Fprintf(&b, " tdiff=%s encb=%s rs=%s restore=%s restoreref=%s rest=%s matchb=%s", b2s(!apiequality.Semantic.DeepEqual(advB.Spec.Template, adv.Spec.Template)),
 			patchCanonJSON(encB), patchCanonJSON(rs), b2s(restore), b2s(restoreRef), b2s(rest), b2s(mb))
 	}
+	if patchHasBigInt(enc) {
+		b.WriteString(" bigint=1")
+	}
 	return b.String()
+}
+
+// patchHasBigInt: some integer of the encoded set is not exactly representable as a float64 (|n| > 2^53).
+func patchHasBigInt(enc []byte) bool {
+	dec := json.NewDecoder(bytes.NewReader(enc))
+	dec.UseNumber()
+	var v interface{}
+	if dec.Decode(&v) != nil {
+		return false
+	}
+	var walk func(x interface{}) bool
+	walk = func(x interface{}) bool {
+		switch t := x.(type) {
+		case json.Number:
+			if n, err := t.Int64(); err == nil {
+				return n > 1<<53 || n < -(1<<53)
+			}
+		case map[string]interface{}:
+			for _, y := range t {
+				if walk(y) {
+					return true
+				}
+			}
+		case []interface{}:
+			for _, y := range t {
+				if walk(y) {
+					return true
+				}
+			}
+		}
+		return false
+	}
+	return walk(v)
 }
 
 // patchSortedKeys is used by the generator when it has to walk a map deterministically.
